@@ -42,6 +42,7 @@ type CircuitBreaker struct {
 	// Use RWMutex for better read concurrency (most requests just read state)
 	mutex           sync.RWMutex
 	state           State
+	generation      uint64 // incremented on every state change; identifies the state period a request was admitted in
 	failureCount    uint32
 	successCount    uint32
 	requestCount    uint32
@@ -113,20 +114,20 @@ func NewCircuitBreaker(settings Settings) *CircuitBreaker {
 
 // Execute executes the given function with circuit breaker protection
 func (cb *CircuitBreaker) Execute(fn func() error) error {
-	err := cb.beforeRequest()
+	generation, err := cb.beforeRequest()
 	if err != nil {
 		return err
 	}
 
 	defer func() {
 		if r := recover(); r != nil {
-			cb.afterRequest(false)
+			cb.afterRequest(generation, false)
 			panic(r)
 		}
 	}()
 
 	err = fn()
-	cb.afterRequest(err == nil)
+	cb.afterRequest(generation, err == nil)
 	return err
 }
 
@@ -135,13 +136,15 @@ func (cb *CircuitBreaker) Call(fn func() error) error {
 	return cb.Execute(fn)
 }
 
-// beforeRequest checks if the request can proceed with optimized locking
-func (cb *CircuitBreaker) beforeRequest() error {
+// beforeRequest checks if the request can proceed with optimized locking. It returns the
+// generation (state period) the request was admitted in.
+func (cb *CircuitBreaker) beforeRequest() (uint64, error) {
 	now := time.Now()
 
 	// Fast path: read-only check for most common case (StateClosed)
 	cb.mutex.RLock()
 	state := cb.state
+	generation := cb.generation
 
 	// Common case: circuit is closed and healthy
 	if state == StateClosed {
@@ -158,7 +161,7 @@ func (cb *CircuitBreaker) beforeRequest() error {
 			}
 			cb.mutex.Unlock()
 		}
-		return nil
+		return generation, nil
 	}
 
 	cb.mutex.RUnlock()
@@ -168,11 +171,12 @@ func (cb *CircuitBreaker) beforeRequest() error {
 	// admitted beyond maxRequests.
 	cb.mutex.Lock()
 	err := cb.admitTrial(now)
+	generation = cb.generation
 	changes := cb.takePendingChanges()
 	cb.mutex.Unlock()
 
 	cb.notifyStateChanges(changes)
-	return err
+	return generation, err
 }
 
 // admitTrial decides whether a request arriving while the breaker is not closed
@@ -200,8 +204,15 @@ func (cb *CircuitBreaker) admitTrial(now time.Time) error {
 }
 
 // afterRequest updates the circuit breaker state after a request
-func (cb *CircuitBreaker) afterRequest(success bool) {
+func (cb *CircuitBreaker) afterRequest(generation uint64, success bool) {
 	cb.mutex.Lock()
+	if generation != cb.generation {
+		// The state has changed since this request was admitted (e.g. it started while the
+		// breaker was closed and finishes while it is half-open). Its outcome says nothing
+		// about the trial requests of the current period and must not open or close it.
+		cb.mutex.Unlock()
+		return
+	}
 	cb.recordResult(success)
 	changes := cb.takePendingChanges()
 	cb.mutex.Unlock()
@@ -251,6 +262,7 @@ func (cb *CircuitBreaker) setState(state State) {
 
 	prev := cb.state
 	cb.state = state
+	cb.generation++
 
 	if cb.onStateChange != nil {
 		cb.pendingChanges = append(cb.pendingChanges, stateChange{from: prev, to: state})
